@@ -454,3 +454,28 @@ fn request_hostname(request: &dyn http_codec::PendingRequest) -> &str {
         .map(http::uri::Authority::as_str)
         .unwrap_or_default()
 }
+
+/// Verification door: the real decoder glue over an arbitrary byte source
+#[cfg(feature = "verif")]
+pub(crate) fn verif_udp_decoder(
+    source: Box<dyn pipe::Source>,
+) -> Box<dyn datagram_pipe::Source<Output = downstream::UdpDatagram>> {
+    let id = source.id();
+    Box::new(DatagramDecoder {
+        source,
+        decoder: Box::new(http_udp_codec::Decoder::new(id)),
+        pending_bytes: Default::default(),
+    })
+}
+
+#[cfg(feature = "verif")]
+pub(crate) fn verif_icmp_decoder(
+    source: Box<dyn pipe::Source>,
+) -> Box<dyn datagram_pipe::Source<Output = downstream::IcmpDatagram>> {
+    Box::new(DatagramDecoder {
+        source,
+        decoder: Box::new(http_icmp_codec::Decoder::new()),
+        pending_bytes: Default::default(),
+    })
+}
+
